@@ -233,7 +233,9 @@ def random_history(seed, length=60, faults=False, nslots=5):
             out.append("avail %d" % r.choice([0, 1, 3, 6, 7, 8, 9, 100, -1]))
         else:
             out.append("probe")
-    # wind down: hand everything back, destroy in random order
+    # wind down: no injected failure may stay armed, hand everything back, destroy in random order
+    if faults:
+        out.append("disarm")
     for T, (s, c) in list(stripes.items()):
         out.append("enc_cleanup s%d %d 0" % (s, T))
     order = list(slots)
